@@ -45,7 +45,7 @@ def schedAtOrBefore (next exp : Nat) : Nat :=
 def postEvent (s : State) (c : String) (collId : Nat) (e : Event) : State :=
   { s with
     feeds := s.feeds.map (fun f =>
-      if f.coll = c ∧ ¬ f.dump then { f with pending := f.pending ++ [.ev e collId f.keysOnly] } else f)
+      if f.coll = c ∧ ¬ f.dump ∧ ¬ f.stopped then { f with pending := f.pending ++ [.ev e collId f.keysOnly] } else f)
     expNext := schedAtOrBefore s.expNext e.exp }
 
 /-- The state after a committed `withNewCas` transaction (before its event is posted). -/
